@@ -27,7 +27,7 @@ RULE = ('constructed crossings: shape pair x (tA,tB) x angle grid; exact counts:
         'configuration; non-trivial = admitted (not filtered) configuration; distinct = distinct configuration')
 ASSUMPTIONS = ['"well separated" is decided by an independent dense neighbourhood search (201x201 samples in the +-0.05 window)',
                'exact crossing counts by rational root isolation; pairs with a root at an end, a tangency or an undecided side are filtered',
-               'curve sizes between 1 and 1e3 (the solvers\' tolerances are absolute)']
+               'curve sizes between 0.1 and 1e3 (the solvers\' tolerances are absolute: 1e-6 boxes still give 1e-4 in parameter at size 0.1)']
 
 
 def kind(seg):
@@ -36,8 +36,8 @@ def kind(seg):
 
 def tier_params(tier, seed):
     if tier == 'quick':
-        return {'tA': [0.2, 0.7], 'tB': [0.3, 0.6], 'alpha': [30, 90, 170], 'scales': [1.0], 'lat': 4}
-    return {'tA': [0.2, 0.5, 0.7], 'tB': [0.3, 0.6], 'alpha': [10, 30, 60, 90, 120, 170], 'scales': [1.0, 100.0], 'lat': 5}
+        return {'tA': [0.2, 0.7], 'tB': [0.3, 0.6], 'alpha': [30, 90, 170], 'scales': [1.0, 0.03], 'lat': 4}
+    return {'tA': [0.2, 0.5, 0.7], 'tB': [0.3, 0.6], 'alpha': [10, 30, 60, 90, 120, 170], 'scales': [1.0, 100.0, 0.03], 'lat': 5}
 
 
 def check_constructed(aname, bname, tA, tB, alpha, scale, acc):
